@@ -1,6 +1,7 @@
 package chk
 
 import (
+	"golang.org/x/tools/go/types/typeutil"
 	"go/ast"
 	"go/token"
 	"go/types"
@@ -184,6 +185,31 @@ func (p *Prog) CallSites(names ...string) []CallSite {
 		for _, c := range fn.AllCallsIn(fn.Body, names...) {
 			out = append(out, CallSite{fn, c})
 		}
+	}
+	return out
+}
+
+// CallersOf lists the static call sites of f in the module (by object, whatever the spelling).
+func (p *Prog) CallersOf(f *Fn) []CallSite {
+	var out []CallSite
+	if f == nil || f.Obj == nil {
+		return nil
+	}
+	for _, fn := range p.fnList {
+		if fn.Lit != nil {
+			continue // literals are visited as part of their enclosing function
+		}
+		info := fn.Info()
+		ast.Inspect(fn.Body, func(n ast.Node) bool {
+			c, ok := n.(*ast.CallExpr)
+			if !ok {
+				return true
+			}
+			if o := typeutil.StaticCallee(info, c); o != nil && o.Origin() == f.Obj.Origin() {
+				out = append(out, CallSite{fn, c})
+			}
+			return true
+		})
 	}
 	return out
 }
